@@ -3,6 +3,7 @@ import SamplyModel.Lemmas.DepthIter
 import SamplyModel.Lemmas.ConvJit
 import SamplyModel.Lemmas.ConvElide
 import SamplyModel.Lemmas.ConvFinal
+import SamplyModel.Lemmas.ConvMarkers
 /-!
 # C14 — deep stacks are shortened only in the middle, with an exact elision count
 
@@ -478,6 +479,25 @@ theorem C14_flush_keeps_kind (pm maps : List MapAdd) (q : List (Nat × MapAdd)) 
   have h2 := congrArg (List.map (fun x : Nat × Nat × Nat × ItemKind => (x.1, x.2.1, x.2.2.2))) this
   rw [List.map_map, List.map_map] at h2
   exact h2
+
+/-- **Conservation of marker stacks, over histories**: for default options and *every* record history (no grammar,
+ordering or context-switch hypothesis) the stacks attached to markers in the output `views (run cfg rs)`, keyed by
+the pid / tid of the thread entry that carries the marker and the marker's time, are — as a multiset — exactly the
+other-event samples of the history (`ConvSpec.oevs`: pid, tid, converted time): each such sample yields one marker
+stack on an entry of its own thread (created on demand), none is lost when the process exits or execs, none is
+duplicated, and no other record yields one. Together with `C14_marker_flush_meets_spec` (what each of these stacks
+is) this is the marker half of the judged statement; the attribution of the frames over histories is
+`C02_history` / `C14_history` for samples and is checked by the judge for markers (`ConvSpec.expectedMarkers`). -/
+theorem C14_marker_conservation (cfg : Config) (rs : List Rec) (hr : cfg.reuse = false) :
+    List.Perm
+      ((views (run cfg rs)).flatMap (fun v => v.markers.map (fun o => (v.pidBase, v.tidBase, o.t))))
+      (oevs cfg.ref rs) :=
+  (views_markers_buffered cfg (run cfg rs) _ (run_sim cfg rs) hr).trans (marker_run cfg rs)
+
+/-- in every reachable state the buffered marker items are exactly the other-event samples so far (any options) -/
+theorem C14_buffered_markers (cfg : Config) (rs : List Rec) :
+    List.Perm (((buffered (run cfg rs)).filter (fun u => u.marker)).map (fun u => (u.gpid, u.gtid, u.t)))
+      (oevs cfg.ref rs) := marker_run cfg rs
 
 /-- **Over histories** (with `C02_history`): for every configuration with default options and every record
 history inside the hypotheses of `C02_history`, the recorded samples of `views (run cfg rs)` carry, as a multiset
